@@ -83,6 +83,9 @@ def code_for_number_token(name, value, location):
     try:
         # Note: base 0 automatically handles prefixes like 0x.
         result = int(value, 0)
+        # Ensure that the number can be shown in messages. Python refuses to convert integers
+        # with several thousand digits to text, which for example can be reached using hex numbers.
+        str(result)
     except ValueError:
         raise errors.InterfaceError(
             "numeric value for %s must be an integer number but is: %s" % (name, _compat.text_repr(value)), location
